@@ -17,12 +17,14 @@ LEVEL = 'model_checking'
 RULE = ('per configuration (template AST from the documented grammar: 0-3 static names, optional wildcard with 1-4 '
         'alternatives over $id/$title/$title(2)/sect$num/sect$num(3)/$id-$num/${jobname}_$id, optional text around the '
         'brackets, x forbidden-character set x reserved-name set) a breadth-first search over ALL request histories up '
-        'to the depth bound; an event = one request binding id and title (each possibly unbound; values chosen to '
-        'repeat, collide, contain forbidden characters, several words, no word, a period); every history is replayed '
-        'on a fresh Filenames object; states merged on (model states, implementation dump).  A case = one history; it '
-        'is non-trivial when its last request got past the literal static names (a variable or $num candidate was '
-        'considered); distinct = distinct (configuration, history); outcomes = distinct observed result sequences.  '
-        'Plus a small family of long constant histories (120 requests) for the give-up bound.')
+        'to the depth bound (quick 6, thorough 12; 6 for the three templates whose first alternative is $id-$num); an '
+        'event = one request binding id and title (each possibly unbound; values chosen to repeat, collide, contain '
+        'forbidden characters, several words, no word, a period); every history is replayed on a fresh Filenames object '
+        'in lock-step with the reference model; states merged on (model states, implementation dump).  A case = one '
+        'history; it is non-trivial when its last request got past the literal static names (a variable or $num '
+        'candidate was considered); distinct = distinct (configuration, spelling, history); outcomes = distinct observed '
+        'result sequences.  Plus every template in the two other spellings to depth 3, and a family of long constant '
+        'histories (120 requests) for the give-up bound.')
 ASSUMPTIONS = [
     'oracle is a hand-written model of the property statement (vp/refs/c15_filenames_model.py)',
     'requests bind variables the way the renderer does: assign into Filenames.variables, then call the object',
@@ -310,7 +312,7 @@ def replay_impl(t, charsub, reserved, history, sp, limit=1.5, spec=None):
     except (core.Timeout, _CpuTimeout):
         if limit < 10:
             # confirm with a generous limit before calling it non-termination
-            return replay_impl(t, charsub, reserved, history, sp, limit=15.0, spec=spec)
+            return replay_impl(t, charsub, reserved, history, sp, limit=8.0, spec=spec)
         results.append('timeout')
         return results, ('timeout',), 0, 'request %d did not terminate within %.1f s of CPU time' % (len(results), limit)
     return results, dump, passes, bad
@@ -529,7 +531,7 @@ def _search(block):
                     rep.count('result_None')
                 else:
                     rep.count('result_' + last)
-                if level >= 2 and len(rep.samples) < rep.MAX_SAMPLES:
+                if level >= 3 and len(t['alts']) >= 2 and len(rep.samples) < rep.MAX_SAMPLES and ei % 7 == 3:
                     rep.sample({'template': print_template(t, sp), 'charsub': charsub, 'reserved': reserved,
                                 'requests': [bindings(e) for e in h2], 'results': obs})
                 if dump == FINISHED:
